@@ -15,7 +15,7 @@ QN = "decaylanguage.utils.utilities.DescriptorFormat"
 META = {
     "level": "other",
     "explanation": (
-        "Bounded stand-in: every sequence up to the length bound (quick 5, thorough 6 and, over a reduced alphabet, 7) of the "
+        "Bounded stand-in: every sequence up to the length bound (quick 6, thorough 7 and, over a reduced alphabet, 8) of the "
         "operations {create a context object with pattern pair A / B / an invalid pair; enter an existing object (real `with`); "
         "leave the innermost context normally; leave it by an exception; DescriptorFormat.set_config with the valid pairs C / D or "
         "with an invalid pair (placeholder missing / foreign placeholder); render with DescriptorFormat.format_descriptor at top "
@@ -42,7 +42,7 @@ ALPHABET = {
     "full": dict(new=["A", "B", "BAD"], set=["C", "D", "BAD1", "BAD2"], render=True, max_objects=3),
     "reduced": dict(new=["A", "BAD"], set=["C", "BAD1"], render=False, max_objects=3),
 }
-LENGTHS = {"quick": [("full", 5)], "thorough": [("full", 6), ("reduced", 7)]}
+LENGTHS = {"quick": [("full", 6)], "thorough": [("full", 7), ("reduced", 8)]}
 
 
 class _Leave(Exception):
@@ -67,12 +67,12 @@ def execute(seq):
     problems = []
     pos = [0]
 
-    def observe(what):
+    def observe(what, when=None):
         cfg = DescriptorFormat.config
         cur = (cfg.get("decay_pattern"), cfg.get("sub_decay_pattern")) if isinstance(cfg, dict) else cfg
         if cur != model.current or (isinstance(cfg, dict) and len(cfg) != 2):
-            problems.append((what[0], what[1], "after step %d %r of %r: format in force is %r, expected %r"
-                             % (pos[0], seq[pos[0] - 1] if pos[0] else None, seq, cur, model.current)))
+            when = when or "after step %d %r" % (pos[0], seq[pos[0] - 1] if pos[0] else None)
+            problems.append((what[0], what[1], "%s of %r: format in force is %r, expected %r" % (when, seq, cur, model.current)))
             return False
         return True
 
@@ -88,6 +88,8 @@ def execute(seq):
                 pair, obj = objs[op[1]]
                 ok = model.enter(pair)
                 entered = False
+                at = pos[0]
+                how = "end"
                 try:
                     with obj:
                         entered = True
@@ -109,7 +111,9 @@ def execute(seq):
                     return "end"
                 if ok:
                     model.leave()
-                    if not observe(("exit.restores", QN + ".__exit__")):
+                    when = "after leaving (%s) the context entered at step %d" % (
+                        {"exit": "normally", "raise": "by an exception", "end": "normally, at the end of the sequence"}[how], at)
+                    if not observe(("exit.restores", QN + ".__exit__"), when):
                         return "end"
                 else:
                     if not observe(("enter.invalid_changes_nothing", QN + ".__enter__")):
@@ -211,8 +215,9 @@ def _worker(task):
     state = ((), 0)
     for op in prefix:
         state = step_state(state, op)
-    n = entered = 0
+    n = 0
     per_len = {}
+    ent_len = {}
     fails = []
     sample = None
     try:
@@ -228,17 +233,22 @@ def _worker(task):
                     created.append(op[1])
                 elif op[0] == "enter" and not created[op[1]].startswith("BAD"):
                     nontrivial = True
-            entered += 1 if nontrivial else 0
+            if nontrivial:
+                ent_len[len(seq)] = ent_len.get(len(seq), 0) + 1
             probs = execute(seq)
-            if probs and len(fails) < 20:
+            if probs:
                 for c, f, w in probs[:1]:
                     fails.append({"function": f, "clause": c, "what": w, "input": {"sequence": [list(o) for o in seq]},
                                   "replay": {"module": "checks.C14", "function": "replay"}, "_size": len(seq)})
+                if len(fails) > 40:      # keep the shortest ones
+                    fails.sort(key=lambda f: f["_size"])
+                    del fails[20:]
             if sample is None and len(seq) == maxlen and nontrivial and any(o[0] == "raise" for o in seq):
                 sample = [list(o) for o in seq]
     finally:
         _restore()
-    return dict(alphabet=aname, n=n, entered=entered, per_len=per_len, fails=fails, sample=sample)
+    fails.sort(key=lambda f: f["_size"])
+    return dict(alphabet=aname, n=n, ent_len=ent_len, per_len=per_len, fails=fails[:20], sample=sample)
 
 
 # ----------------------------------------------------------------------------------------------------
@@ -319,23 +329,18 @@ def run(tier: str, seed: int) -> dict:
     if seed:
         import random
         random.Random(seed).shuffle(tasks)
+    full_len = max(l for a, l in LENGTHS[tier] if a == "full")
     try:
         for r in cs.run_parallel(_worker, tasks):
-            if r["alphabet"] == "reduced":
-                # the reduced alphabet is a subset of the full one: count only the lengths beyond the full bound
-                full_len = max(l for a, l in LENGTHS[tier] if a == "full")
-                extra = sum(c for l, c in r["per_len"].items() if l > full_len)
-                frac = extra / r["n"] if r["n"] else 0
-                tot["n"] += extra
-                tot["entered"] += int(round(r["entered"] * frac)) if extra != r["n"] else r["entered"]
-                for l, c in r["per_len"].items():
-                    if l > full_len:
-                        per_len["%d(reduced alphabet)" % l] = per_len.get("%d(reduced alphabet)" % l, 0) + c
-            else:
-                tot["n"] += r["n"]
-                tot["entered"] += r["entered"]
-                for l, c in r["per_len"].items():
-                    per_len[str(l)] = per_len.get(str(l), 0) + c
+            # the reduced alphabet is a subset of the full one: its sequences up to the full bound are not counted again
+            reduced = r["alphabet"] == "reduced"
+            for l, c in r["per_len"].items():
+                if reduced and l <= full_len:
+                    continue
+                tot["n"] += c
+                tot["entered"] += r["ent_len"].get(l, 0)
+                k = ("%d (reduced alphabet)" % l) if reduced else str(l)
+                per_len[k] = per_len.get(k, 0) + c
             fails += r["fails"]
             if r["sample"] and len(samples) < 3:
                 samples.append(r["sample"])
